@@ -100,7 +100,7 @@ func runC12(ctx *core.Ctx) {
 	if !ctx.Quick() {
 		ctx.Extra("all_sandbox_subsets_enumerated", true)
 	}
-	perPol := ctx.N(80, 60)
+	perPol := ctx.N(200, 100)
 	ctx.Run("subsets", nSub, func(cs *core.Case) {
 		r := cs.R
 		mask := cs.Index
